@@ -23,12 +23,13 @@ func init() {
 }
 
 type wTr struct {
-	recv   string            // receiver name (t)
-	fset   string            // name of the *token.FileSet parameter
-	env    map[string]string // Go identifier -> Lean path literal (list of strings), e.g. s -> [] ; expr -> ["X"]
-	posOf  map[string]string // identifier bound to fset.Position(P.Pos()) -> path of P
-	okOf   map[string]string // identifier bound by `v, ok := P.(*ast.T)` -> condition (.isKind P "T")
-	inEach int
+	recv           string            // receiver name (t)
+	fset           string            // name of the *token.FileSet parameter
+	env            map[string]string // Go identifier -> Lean path literal (list of strings), e.g. s -> [] ; expr -> ["X"]
+	posOf          map[string]string // identifier bound to fset.Position(P.Pos()) -> path of P
+	okOf           map[string]string // identifier bound by `v, ok := P.(*ast.T)` -> condition (.isKind P "T")
+	inEach         int
+	retFalseIsCont bool // inside the FuncLit arm of a literal pass `return false` ends the arm
 }
 
 func (t *wTr) fail(n ast.Node, what string) error {
@@ -490,6 +491,11 @@ func (t *wTr) act(s ast.Stmt) (string, error) {
 			return ".cont", nil
 		}
 		return "", t.fail(s, "branch statement")
+	case *ast.ReturnStmt:
+		if t.retFalseIsCont && t.inEach == 0 && len(x.Results) == 1 && isIdent(x.Results[0], "false") {
+			return ".cont", nil
+		}
+		return "", t.fail(s, "return statement")
 	case *ast.EmptyStmt:
 		return "", nil
 	}
@@ -994,6 +1000,131 @@ func translateDecls(fd *ast.FuncDecl) (string, error) {
 	return arms, nil
 }
 
+//	literal pass: func (t *IncrementalTrack) name(specs []ast.Spec, fset *token.FileSet) {
+//	  for _, spec := range specs { switch spec := spec.(type) { case *ast.ValueSpec:
+//	    for _, value := range spec.Values { ast.Inspect(value, func(n ast.Node) bool {
+//	      if n == nil { return false }; switch n := n.(type) { case *ast.FuncLit: ARM; return false }; return true }) } } } }
+func translateLitPass(fd *ast.FuncDecl) (string, error) {
+	name := fd.Name.Name
+	bad := func(what string) (string, error) { return "", fmt.Errorf("%s: %s", name, what) }
+	t := &wTr{env: map[string]string{}, posOf: map[string]string{}, okOf: map[string]string{}, retFalseIsCont: true}
+	if fd.Recv == nil || len(fd.Recv.List) != 1 || len(fd.Recv.List[0].Names) != 1 {
+		return bad("receiver")
+	}
+	t.recv = fd.Recv.List[0].Names[0].Name
+	ps := fd.Type.Params.List
+	if len(ps) != 2 || len(ps[0].Names) != 1 || len(ps[1].Names) != 1 {
+		return bad("parameters")
+	}
+	specs := ps[0].Names[0].Name
+	t.fset = ps[1].Names[0].Name
+	if len(fd.Body.List) != 1 {
+		return bad("body is not a single loop")
+	}
+	l1, ok := fd.Body.List[0].(*ast.RangeStmt)
+	if !ok || !isIdent(l1.X, specs) || !isIdent(l1.Key, "_") || l1.Value == nil || len(l1.Body.List) != 1 {
+		return bad("outer loop")
+	}
+	specVar := l1.Value.(*ast.Ident).Name
+	ts, ok := l1.Body.List[0].(*ast.TypeSwitchStmt)
+	if !ok || ts.Init != nil || len(ts.Body.List) != 1 {
+		return bad("type switch over the specs with a single case")
+	}
+	as, ok := ts.Assign.(*ast.AssignStmt)
+	if !ok || len(as.Lhs) != 1 || len(as.Rhs) != 1 {
+		return bad("type switch guard")
+	}
+	if ta, ok := as.Rhs[0].(*ast.TypeAssertExpr); !ok || ta.Type != nil || !isIdent(ta.X, specVar) {
+		return bad("type switch guard")
+	}
+	bound := as.Lhs[0].(*ast.Ident).Name
+	cc := ts.Body.List[0].(*ast.CaseClause)
+	if len(cc.List) != 1 || len(cc.Body) != 1 {
+		return bad("case *ast.ValueSpec with a single loop")
+	}
+	if st, ok := cc.List[0].(*ast.StarExpr); !ok {
+		return bad("case type")
+	} else if sel, ok := st.X.(*ast.SelectorExpr); !ok || sel.Sel.Name != "ValueSpec" {
+		return bad("case type")
+	}
+	l2, ok := cc.Body[0].(*ast.RangeStmt)
+	if !ok || !isIdent(l2.Key, "_") || l2.Value == nil || len(l2.Body.List) != 1 {
+		return bad("loop over the values")
+	}
+	if sel, ok := l2.X.(*ast.SelectorExpr); !ok || !isIdent(sel.X, bound) || sel.Sel.Name != "Values" {
+		return bad("loop over spec.Values")
+	}
+	valVar := l2.Value.(*ast.Ident).Name
+	es, ok := l2.Body.List[0].(*ast.ExprStmt)
+	if !ok {
+		return bad("ast.Inspect call")
+	}
+	call, ok := es.X.(*ast.CallExpr)
+	if !ok || len(call.Args) != 2 || !isIdent(call.Args[0], valVar) {
+		return bad("ast.Inspect(value, …)")
+	}
+	if sel, ok := call.Fun.(*ast.SelectorExpr); !ok || !isIdent(sel.X, "ast") || sel.Sel.Name != "Inspect" {
+		return bad("ast.Inspect(value, …)")
+	}
+	fl, ok := call.Args[1].(*ast.FuncLit)
+	if !ok || len(fl.Type.Params.List) != 1 || len(fl.Type.Params.List[0].Names) != 1 {
+		return bad("callback")
+	}
+	n := fl.Type.Params.List[0].Names[0].Name
+	b := fl.Body.List
+	if len(b) != 3 {
+		return bad("callback is not {nil check; type switch; return true}")
+	}
+	nc, ok := b[0].(*ast.IfStmt)
+	okNil := false
+	if ok && nc.Init == nil && nc.Else == nil && len(nc.Body.List) == 1 {
+		if be, ok := nc.Cond.(*ast.BinaryExpr); ok && be.Op == token.EQL && isNilIdent(be.Y) && isIdent(be.X, n) {
+			if r, ok := nc.Body.List[0].(*ast.ReturnStmt); ok && len(r.Results) == 1 && isIdent(r.Results[0], "false") {
+				okNil = true
+			}
+		}
+	}
+	if !okNil {
+		return bad("first statement of the callback is not the nil check")
+	}
+	if r, ok := b[2].(*ast.ReturnStmt); !ok || len(r.Results) != 1 || !isIdent(r.Results[0], "true") {
+		return bad("the callback does not end with `return true`")
+	}
+	ts2, ok := b[1].(*ast.TypeSwitchStmt)
+	if !ok || ts2.Init != nil || len(ts2.Body.List) != 1 {
+		return bad("type switch over the node with a single case")
+	}
+	as2, ok := ts2.Assign.(*ast.AssignStmt)
+	if !ok || len(as2.Lhs) != 1 || len(as2.Rhs) != 1 {
+		return bad("inner type switch guard")
+	}
+	if ta, ok := as2.Rhs[0].(*ast.TypeAssertExpr); !ok || ta.Type != nil || !isIdent(ta.X, n) {
+		return bad("inner type switch guard")
+	}
+	cc2 := ts2.Body.List[0].(*ast.CaseClause)
+	if len(cc2.List) != 1 {
+		return bad("case *ast.FuncLit")
+	}
+	if st, ok := cc2.List[0].(*ast.StarExpr); !ok {
+		return bad("case *ast.FuncLit")
+	} else if sel, ok := st.X.(*ast.SelectorExpr); !ok || sel.Sel.Name != "FuncLit" {
+		return bad("case *ast.FuncLit")
+	}
+	if len(cc2.Body) == 0 {
+		return bad("empty FuncLit arm")
+	}
+	// the arm must end with `return false` (no descent into the literal)
+	if r, ok := cc2.Body[len(cc2.Body)-1].(*ast.ReturnStmt); !ok || len(r.Results) != 1 || !isIdent(r.Results[0], "false") {
+		return bad("the FuncLit arm does not end with `return false`")
+	}
+	t.bind(as2.Lhs[0].(*ast.Ident).Name, nil)
+	arm, err := t.acts(cc2.Body[:len(cc2.Body)-1])
+	if err != nil {
+		return "", fmt.Errorf("%s: %v", name, err)
+	}
+	return arm, nil
+}
+
 func runWalker(args []string) error {
 	repo := os.Getenv("VERIF_REPO")
 	if repo == "" {
@@ -1046,6 +1177,17 @@ func runWalker(args []string) error {
 			}
 		}
 	}
+	litPasses := map[string]string{}
+	for _, d := range f.Decls {
+		if fd, ok := d.(*ast.FuncDecl); ok && fd.Body != nil && fd.Recv != nil && (fd.Name.Name == "processGlobalValueSpecs" || fd.Name.Name == "processGlobalFunctionLit") {
+			s, err := translateLitPass(fd)
+			if err != nil {
+				terr = append(terr, err.Error())
+			} else {
+				litPasses[fd.Name.Name] = s
+			}
+		}
+	}
 	var b strings.Builder
 	b.WriteString("import GoatSpec.WalkIR\n/-! GENERATED by `vh walker` from /repo/pkg/tracking/increment.go (go/parser, purely syntactic) on every run — do not edit.\n    The statement and expression walkers as `WalkIR` values; an untranslatable construct leaves the\n    walker out (its theorems in Properties/Walker.lean then fail to elaborate). -/\nnamespace GoatSpec.Walker\nopen GoatSpec.WalkIR\n\n")
 	for _, w := range want {
@@ -1055,6 +1197,11 @@ func runWalker(args []string) error {
 	}
 	if declWalker != "" {
 		fmt.Fprintf(&b, "def addStmts : Walker := ⟨\n   %s⟩\n\n", declWalker)
+	}
+	for _, nm := range []string{"processGlobalValueSpecs", "processGlobalFunctionLit"} {
+		if s, ok := litPasses[nm]; ok {
+			fmt.Fprintf(&b, "def %s : LitPass := ⟨%s⟩\n\n", nm, s)
+		}
 	}
 	if inspector != "" {
 		fmt.Fprintf(&b, "def processControlStatements : Inspector := ⟨\n   %s⟩\n\n", inspector)
